@@ -1109,4 +1109,226 @@ theorem hashstring_exec (m : Mem) (b : Nat) (s : List UInt8) (h : MemBytes m b (
     simp [testOf, evalE, evalL, readPlace, writePlace, binop, ptrAdd, Mem.block, h1, h2, h0, hle, hld, convert, w0,
       bind, Except.bind, Except.map, truth, Int.natCast_add, List.take_length]
 
+/-! ## `addbrackets` -/
+
+/-- what `addbrackets` returns: the text itself when it starts with `[` and ends with `]`, otherwise the text in brackets -/
+def addSpec (s : List UInt8) : List UInt8 :=
+  if s.head? = some 91 ∧ s.getLast? = some 93 then s else 91 :: s ++ [93]
+
+theorem addbrackets_exec (m : Mem) (b : Nat) (s : List UInt8) (h : MemBytes m b (s ++ [0])) (hs : (0 : UInt8) ∉ s)
+    (hsmall : (s.length : Int) + 3 < 18446744073709551616) (fuel : Nat) :
+    ∃ m' loc', exec fuel LeafFns.addbrackets.body { mem := m, loc := [.ptr b 0, .undef, .undef, .undef] } =
+        .ret (.ptr m.length 0) { mem := m', loc := loc' } ∧
+      MemBytes m' m.length (addSpec s ++ [0]) ∧ m'.length = m.length + 1 ∧ ∀ b', b' < m.length → m'[b']? = m[b']? := by
+  have hstr := h.cstr hs 0 (Nat.zero_le _)
+  simp only [Int.natCast_zero, List.drop_zero] at hstr
+  have hl0 := h.load8 0 (by simp)
+  simp only [Int.natCast_zero] at hl0
+  have hbm := h.lt_length
+  obtain ⟨blk, h1, h2, hw, h3⟩ := h.blk
+  have hlen : blk.cells.length = s.length + 1 := by rw [h3]; simp
+  have wL : wrapTo .u64 (s.length : Int) = s.length := wrapTo_u64_small _ (by omega) (by omega)
+  have hpre : ∀ rest : Stmt, exec fuel
+      (.seq (.ite (.bin .eq (.load (.var 0) .ptr) .null .i32) (.ret (some .null)) .skip)
+        (.seq (.expr (.assign (.var 1) (.call "strlen" (.cons (.load (.var 0) .ptr) .nil)) .u64)) rest))
+      { mem := m, loc := [.ptr b 0, .undef, .undef, .undef] } =
+      exec fuel rest { mem := m, loc := [.ptr b 0, .int (s.length : Nat), .undef, .undef] } := by
+    intro rest
+    simp [exec, testOf, evalE, evalL, evalArgs, readPlace, writePlace, builtin, hstr, bind, Except.bind, binop, convert, truth, boolVal, wL]
+  simp only [LeafFns.addbrackets]
+  rw [hpre]
+  -- the test
+  have hcond_iff : (s.head? = some 91 ∧ s.getLast? = some 93) ↔ (s[0]? = some 91 ∧ s[s.length - 1]? = some 93) := by
+    rw [List.head?_eq_getElem?, List.getLast?_eq_getElem?]
+  have htest : testOf (some (.un .lnot (.land (.bin .eq (.cast .i32 (.load (.deref (.load (.var 0) .ptr)) .i8)) (.lit 91 .i32) .i32)
+      (.bin .eq (.cast .i32 (.load (.deref (.bin .add (.load (.var 0) .ptr) (.bin .sub (.load (.var 1) .u64) (.cast .u64 (.lit 1 .i32)) .u64) .ptr)) .i8))
+        (.lit 93 .i32) .i32)) .i32))
+      { mem := m, loc := [.ptr b 0, .int (s.length : Nat), .undef, .undef] } =
+      .ok (!decide (s.head? = some 91 ∧ s.getLast? = some 93), { mem := m, loc := [.ptr b 0, .int (s.length : Nat), .undef, .undef] }) := by
+    have hdec : decide (s.head? = some 91 ∧ s.getLast? = some 93) = decide (s[0]? = some 91 ∧ s[s.length - 1]? = some 93) :=
+      decide_eq_decide.2 hcond_iff
+    rw [hdec]
+    have h91' : sch 91 = 91 := by rw [sch_eq]; decide
+    have w91 : wrapTo .i32 91 = 91 := wrapTo_i32 _ (by decide) (by decide)
+    have w93 : wrapTo .i32 93 = 93 := wrapTo_i32 _ (by decide) (by decide)
+    have w1 : wrapTo .u64 1 = 1 := wrapTo_u64_small 1 (by decide) (by decide)
+    by_cases hp : 0 < s.length
+    · have hb0 : (s ++ [0])[0]'(by simp) = s[0]'hp := by rw [List.getElem_append_left hp]
+      rw [hb0] at hl0
+      by_cases hc : s[0]'hp = 91
+      · have hL : s.length - 1 < (s ++ [0]).length := by simp; omega
+        have hld := h.load8 (s.length - 1) hL
+        rw [List.getElem_append_left (by omega)] at hld
+        have e : wrapTo .u64 ((s.length : Int) - 1) = ((s.length - 1 : Nat) : Int) := by
+          rw [wrapTo_u64_small _ (by omega) (by omega)]; omega
+        have h0 : (0 : Int) ≤ ((s.length - 1 : Nat) : Int) := by omega
+        have hle : ((s.length - 1 : Nat) : Int) ≤ (blk.cells.length : Int) := by rw [hlen]; omega
+        by_cases hlast : s[s.length - 1] = 93
+        · have h93' : sch 93 = 93 := by rw [sch_eq]; decide
+          have : (s[0]? = some 91 ∧ s[s.length - 1]? = some 93) := by
+            rw [List.getElem?_eq_getElem hp, List.getElem?_eq_getElem (by omega), hc, hlast]; exact ⟨rfl, rfl⟩
+          rw [hc] at hl0; rw [hlast] at hld
+          simp [testOf, evalE, evalL, readPlace, bind, Except.bind, hl0, Except.map, convert, wrapTo_i32_sch, binop, cmpInt, boolVal, truth, unop,
+            arith, Ty.signed, h91', h93', w91, w93, w1, e, ptrAdd, Mem.block, h1, h2, h0, hle, hld, this]
+        · have hne : sch (s[s.length - 1]) ≠ 93 := fun hh => hlast (sch_inj _ 93 (by rw [hh, sch_eq]; decide))
+          have : ¬ (s[0]? = some 91 ∧ s[s.length - 1]? = some 93) := by
+            rw [List.getElem?_eq_getElem (show s.length - 1 < s.length by omega)]
+            rintro ⟨_, h'⟩
+            exact hlast (Option.some.inj h')
+          rw [hc] at hl0
+          simp [testOf, evalE, evalL, readPlace, bind, Except.bind, hl0, Except.map, convert, wrapTo_i32_sch, binop, cmpInt, boolVal, truth, unop,
+            arith, Ty.signed, h91', w91, w1, e, ptrAdd, Mem.block, h1, h2, h0, hle, hld, hne, this]
+      · have hne : sch s[0] ≠ 91 := fun hh => hc (sch_inj _ 91 (by rw [hh, sch_eq]; decide))
+        have : ¬ (s[0]? = some 91 ∧ s[s.length - 1]? = some 93) := by
+          rw [List.getElem?_eq_getElem hp]
+          rintro ⟨h', _⟩
+          exact hc (Option.some.inj h')
+        simp [testOf, evalE, evalL, readPlace, bind, Except.bind, hl0, Except.map, convert, wrapTo_i32_sch, binop, cmpInt, boolVal, truth, unop, hne, this]
+    · have hnil : s = [] := List.eq_nil_of_length_eq_zero (by omega)
+      subst hnil
+      have h91 : sch 0 ≠ 91 := by rw [sch_eq]; decide
+      simp [testOf, evalE, evalL, readPlace, bind, Except.bind, hl0, Except.map, convert, wrapTo_i32_sch, binop, cmpInt, boolVal, truth, unop, h91]
+  by_cases hcond : s.head? = some 91 ∧ s.getLast? = some 93
+  · -- already in brackets: a copy
+    have ht := htest
+    simp only [hcond, and_self, decide_true, Bool.not_true] at ht
+    have hskip := exec_ite_false (fuel := fuel) (a := (.seq (.expr (.assign (.var 2) (.call "malloc" (.cons (.bin .add (.load (.var 1) .u64) (.cast .u64 (.lit 3 .i32)) .u64) .nil)) .ptr))
+      (.seq (.ite (.bin .eq (.load (.var 2) .ptr) .null .i32) (.ret (some .null)) .skip)
+        (.seq (.expr (.assign (.var 3) (.load (.var 2) .ptr) .ptr))
+          (.seq (.expr (.assign (.deref (.incdec (.var 3) true true .ptr)) (.cast .i8 (.lit 91 .i32)) .i8))
+            (.seq (.expr (.assign (.var 3) (.call "stpcpy" (.cons (.load (.var 3) .ptr) (.cons (.load (.var 0) .ptr) .nil))) .ptr))
+              (.seq (.expr (.assign (.deref (.incdec (.var 3) true true .ptr)) (.cast .i8 (.lit 93 .i32)) .i8))
+                (.seq (.expr (.assign (.deref (.load (.var 3) .ptr)) (.cast .i8 (.lit 0 .i32)) .i8)) (.ret (some (.load (.var 2) .ptr)))))))))))
+      (b := .skip) ht
+    have hskip2 : exec fuel .skip { mem := m, loc := [.ptr b 0, .int (s.length : Nat), .undef, .undef] } =
+        .normal { mem := m, loc := [.ptr b 0, .int (s.length : Nat), .undef, .undef] } := by simp [exec]
+    rw [hskip2] at hskip
+    rw [exec_seq_normal hskip]
+    obtain ⟨ha1, ha2, ha3, ha4⟩ := alloc_spec m (s.length + 1)
+    have hp : MemPart (m.alloc (s.length + 1)).1 m.length [] ((s ++ [0]).length + 0) := by simpa using ha2
+    obtain ⟨m', hst, hm', hl', ho'⟩ := hp.storeBytes (s ++ [0])
+    simp only [List.length_nil, Int.natCast_zero, List.nil_append] at hst
+    refine ⟨m', [.ptr b 0, .int (s.length : Nat), .undef, .undef], ?_, ?_, by rw [hl', ha3], fun b' hb' => by rw [ho' b' (by omega), ha4 b' hb']⟩
+    · simp [exec, evalE, evalL, evalArgs, readPlace, builtin, hstr, bind, Except.bind, Mem.alloc] at hst ⊢
+      simp [hst]
+    · rw [show addSpec s = s by simp [addSpec, hcond]]
+      exact hm'.toBytes
+  · -- not in brackets: a new object of strlen + 3 bytes is filled with '[', the text, ']' and the terminator
+    have ht := htest
+    simp only [hcond, decide_false, Bool.not_false] at ht
+    -- the object
+    have wL3 : wrapTo .u64 ((s.length : Int) + 3) = ((s.length + 3 : Nat) : Int) := by
+      rw [wrapTo_u64_small _ (by omega) (by omega)]; omega
+    have w3 : wrapTo .u64 3 = 3 := wrapTo_u64_small 3 (by decide) (by decide)
+    obtain ⟨ha1, ha2, ha3, ha4⟩ := alloc_spec m (s.length + 3)
+    generalize hm1 : (m.alloc (s.length + 3)).1 = m1 at ha2 ha3 ha4
+    have hnb : m.length ≠ b := by omega
+    have hS1 : exec fuel (.expr (.assign (.var 2) (.call "malloc" (.cons (.bin .add (.load (.var 1) .u64) (.cast .u64 (.lit 3 .i32)) .u64) .nil)) .ptr))
+        { mem := m, loc := [.ptr b 0, .int (s.length : Nat), .undef, .undef] } =
+        .normal { mem := m1, loc := [.ptr b 0, .int (s.length : Nat), .ptr m.length 0, .undef] } := by
+      simp [exec, evalE, evalL, evalArgs, readPlace, writePlace, builtin, bind, Except.bind, binop, cmpInt, arith, Ty.signed, convert, w3]
+      rw [show (s.length : Int) + 3 = ((s.length + 3 : Nat) : Int) by omega] at wL3 ⊢
+      rw [wL3]
+      simp [Mem.alloc] at hm1 ⊢
+      exact hm1
+    have hS2 : exec fuel (.ite (.bin .eq (.load (.var 2) .ptr) .null .i32) (.ret (some .null)) .skip)
+        { mem := m1, loc := [.ptr b 0, .int (s.length : Nat), .ptr m.length 0, .undef] } =
+        .normal { mem := m1, loc := [.ptr b 0, .int (s.length : Nat), .ptr m.length 0, .undef] } := by
+      simp [exec, testOf, evalE, evalL, readPlace, binop, boolVal, truth, bind, Except.bind]
+    have hS3 : exec fuel (.expr (.assign (.var 3) (.load (.var 2) .ptr) .ptr))
+        { mem := m1, loc := [.ptr b 0, .int (s.length : Nat), .ptr m.length 0, .undef] } =
+        .normal { mem := m1, loc := [.ptr b 0, .int (s.length : Nat), .ptr m.length 0, .ptr m.length 0] } := by
+      simp [exec, evalE, evalL, readPlace, writePlace, convert, bind, Except.bind]
+    -- '['
+    obtain ⟨blk1, b1, b2, _, b3⟩ := ha2.blk
+    have hc1 : blk1.cells.length = s.length + 3 := by rw [b3]; simp
+    have hp1 : MemPart m1 m.length [] ((s.length + 2) + 1) := by simpa using ha2
+    obtain ⟨m2, hst2, hm2, hl2, ho2⟩ := hp1.store8 91
+    have by91 : byteOf 91 = 91 := by decide
+    rw [by91] at hm2
+    simp only [List.length_nil, Int.natCast_zero, List.nil_append] at hst2 hm2
+    have w91 : wrapTo .i8 91 = 91 := wrapTo_i8_of_range 91 (by decide) (by decide)
+    have hS4 : exec fuel (.expr (.assign (.deref (.incdec (.var 3) true true .ptr)) (.cast .i8 (.lit 91 .i32)) .i8))
+        { mem := m1, loc := [.ptr b 0, .int (s.length : Nat), .ptr m.length 0, .ptr m.length 0] } =
+        .normal { mem := m2, loc := [.ptr b 0, .int (s.length : Nat), .ptr m.length 0, .ptr m.length 1] } := by
+      have hle : (1 : Int) ≤ (blk1.cells.length : Int) := by rw [hc1]; omega
+      simp [exec, evalE, evalL, readPlace, writePlace, binop, ptrAdd, Mem.block, b1, b2, hle, convert, w91, wrapTo_i8_idem, hst2, bind, Except.bind,
+        Except.map, Ty.bits]
+    -- the text and its terminator
+    have hsrc : MemBytes m2 b (s ++ [0]) := (MemBytes.frame ⟨⟨blk, by rw [ha4 b hbm]; exact h1, h2, hw, h3⟩⟩ ho2 (Ne.symm hnb))
+    have hstr2 := hsrc.cstr hs 0 (Nat.zero_le _)
+    simp only [Int.natCast_zero, List.drop_zero] at hstr2
+    have hp2 : MemPart m2 m.length [91] ((s ++ [0]).length + 1) := by simpa [Nat.add_comm, Nat.add_left_comm, Nat.add_assoc] using hm2
+    obtain ⟨m3, hst3, hm3, hl3, ho3⟩ := hp2.storeBytes (s ++ [0])
+    simp only [List.length_singleton, Int.natCast_one] at hst3
+    have hS5 : exec fuel (.expr (.assign (.var 3) (.call "stpcpy" (.cons (.load (.var 3) .ptr) (.cons (.load (.var 0) .ptr) .nil))) .ptr))
+        { mem := m2, loc := [.ptr b 0, .int (s.length : Nat), .ptr m.length 0, .ptr m.length 1] } =
+        .normal { mem := m3, loc := [.ptr b 0, .int (s.length : Nat), .ptr m.length 0, .ptr m.length (1 + (s.length : Int))] } := by
+      simp [exec, evalE, evalL, evalArgs, readPlace, writePlace, builtin, hstr2, hst3, convert, bind, Except.bind]
+    -- ']' over the terminator, then the new terminator
+    obtain ⟨m4, hst4, hm4, hl4, ho4⟩ := hm3.store8_at (1 + s.length) (by simp; omega) 93
+    have by93 : byteOf 93 = 93 := by decide
+    rw [by93] at hm4
+    have hset : ([91] ++ (s ++ [0])).set (1 + s.length) 93 = 91 :: s ++ [93] := by
+      have : (91 :: s).length = 1 + s.length := by simp; omega
+      rw [show ([91] ++ (s ++ [0])) = (91 :: s) ++ [0] by simp, List.set_append_right _ _ (by omega), this, Nat.sub_self]
+      simp
+    rw [hset] at hm4
+    have hp4 : MemPart m4 m.length (91 :: s ++ [93]) (0 + 1) := by simpa using hm4
+    obtain ⟨m5, hst5, hm5, hl5, ho5⟩ := hp4.store8 0
+    rw [byteOf_zero] at hm5
+    obtain ⟨blk3, c1, c2, _, c3⟩ := hm3.blk
+    have hc3 : blk3.cells.length = s.length + 3 := by rw [c3]; simp [Nat.add_comm, Nat.add_left_comm]
+    obtain ⟨blk4, d1, d2, _, d3⟩ := hm4.blk
+    have w93 : wrapTo .i8 93 = 93 := wrapTo_i8_of_range 93 (by decide) (by decide)
+    have w0 : wrapTo .i8 0 = 0 := wrapTo_i8_of_range 0 (by decide) (by decide)
+    have hS6 : exec fuel (.expr (.assign (.deref (.incdec (.var 3) true true .ptr)) (.cast .i8 (.lit 93 .i32)) .i8))
+        { mem := m3, loc := [.ptr b 0, .int (s.length : Nat), .ptr m.length 0, .ptr m.length (1 + (s.length : Int))] } =
+        .normal { mem := m4, loc := [.ptr b 0, .int (s.length : Nat), .ptr m.length 0, .ptr m.length (1 + (s.length : Int) + 1)] } := by
+      have h0 : (0 : Int) ≤ 1 + (s.length : Int) + 1 := by omega
+      have hle : 1 + (s.length : Int) + 1 ≤ (blk3.cells.length : Int) := by rw [hc3]; omega
+      have e : ((1 + s.length : Nat) : Int) = 1 + (s.length : Int) := by omega
+      rw [e] at hst4
+      simp [exec, evalE, evalL, readPlace, writePlace, binop, ptrAdd, Mem.block, c1, c2, h0, hle, convert, w93, wrapTo_i8_idem, hst4, bind, Except.bind,
+        Except.map, Ty.bits]
+    have hS7 : exec fuel (.expr (.assign (.deref (.load (.var 3) .ptr)) (.cast .i8 (.lit 0 .i32)) .i8))
+        { mem := m4, loc := [.ptr b 0, .int (s.length : Nat), .ptr m.length 0, .ptr m.length (1 + (s.length : Int) + 1)] } =
+        .normal { mem := m5, loc := [.ptr b 0, .int (s.length : Nat), .ptr m.length 0, .ptr m.length (1 + (s.length : Int) + 1)] } := by
+      have e : (((91 :: s ++ [93]).length : Nat) : Int) = 1 + (s.length : Int) + 1 := by simp; omega
+      rw [e] at hst5
+      simp [exec, evalE, evalL, readPlace, writePlace, convert, w0, wrapTo_i8_idem, hst5, bind, Except.bind, Except.map, Ty.bits]
+    have hA := exec_ite_true (fuel := fuel) (a := (.seq (.expr (.assign (.var 2) (.call "malloc" (.cons (.bin .add (.load (.var 1) .u64) (.cast .u64 (.lit 3 .i32)) .u64) .nil)) .ptr))
+      (.seq (.ite (.bin .eq (.load (.var 2) .ptr) .null .i32) (.ret (some .null)) .skip)
+        (.seq (.expr (.assign (.var 3) (.load (.var 2) .ptr) .ptr))
+          (.seq (.expr (.assign (.deref (.incdec (.var 3) true true .ptr)) (.cast .i8 (.lit 91 .i32)) .i8))
+            (.seq (.expr (.assign (.var 3) (.call "stpcpy" (.cons (.load (.var 3) .ptr) (.cons (.load (.var 0) .ptr) .nil))) .ptr))
+              (.seq (.expr (.assign (.deref (.incdec (.var 3) true true .ptr)) (.cast .i8 (.lit 93 .i32)) .i8))
+                (.seq (.expr (.assign (.deref (.load (.var 3) .ptr)) (.cast .i8 (.lit 0 .i32)) .i8)) (.ret (some (.load (.var 2) .ptr)))))))))))
+      (b := .skip) ht
+    rw [exec_seq_normal hS1, exec_seq_normal hS2, exec_seq_normal hS3, exec_seq_normal hS4, exec_seq_normal hS5, exec_seq_normal hS6,
+      exec_seq_normal hS7] at hA
+    have hret : exec fuel (.ret (some (.load (.var 2) .ptr)))
+        { mem := m5, loc := [.ptr b 0, .int (s.length : Nat), .ptr m.length 0, .ptr m.length (1 + (s.length : Int) + 1)] } =
+        .ret (.ptr m.length 0) { mem := m5, loc := [.ptr b 0, .int (s.length : Nat), .ptr m.length 0, .ptr m.length (1 + (s.length : Int) + 1)] } := by
+      simp [exec, evalE, evalL, readPlace, bind, Except.bind]
+    rw [hret] at hA
+    rw [exec_seq_ret hA]
+    refine ⟨m5, _, rfl, ?_, by rw [hl5, hl4, hl3, hl2, ha3], fun b' hb' => ?_⟩
+    · rw [show addSpec s = 91 :: s ++ [93] by simp [addSpec, hcond]]
+      exact hm5.toBytes
+    · have hne : b' ≠ m.length := by omega
+      rw [ho5 b' hne, ho4 b' hne, ho3 b' hne, ho2 b' hne, ha4 b' hb']
+
+theorem addSpec_eq (s : List UInt8) : addSpec s = Econf.addBrackets s := by
+  simp only [addSpec, Econf.addBrackets, Econf.LBR, Econf.RBR, Bool.and_eq_true, beq_iff_eq]
+
+/-- `addbrackets` (lib/helpers.c): no fault, the argument is left alone, and the new string is the model's `addBrackets` -/
+theorem C_addbrackets (m : Mem) (b : Nat) (s : List UInt8) (h : MemBytes m b (s ++ [0])) (hs : (0 : UInt8) ∉ s)
+    (hsmall : (s.length : Int) + 3 < 18446744073709551616) (fuel : Nat) :
+    ∃ m' loc', exec fuel LeafFns.addbrackets.body { mem := m, loc := [.ptr b 0, .undef, .undef, .undef] } =
+        .ret (.ptr m.length 0) { mem := m', loc := loc' } ∧
+      MemBytes m' m.length (Econf.addBrackets s ++ [0]) ∧ m'.length = m.length + 1 ∧ ∀ b', b' < m.length → m'[b']? = m[b']? := by
+  have := addbrackets_exec m b s h hs hsmall fuel
+  rwa [addSpec_eq] at this
+
 end Leaf
